@@ -18,7 +18,7 @@ from .result import Result
 ROOT = os.path.dirname(os.path.dirname(os.path.abspath(__file__)))
 VCHECK = os.path.join(ROOT, 'bin', 'vcheck')
 NPROC = int(os.environ.get('VERIF_NPROC', '16'))
-WALL_CAP = {'quick': 200.0, 'thorough': 3000.0}
+WALL_CAP = {'quick': 360.0, 'thorough': 3000.0}
 MAX_REPLAY_GROUPS = 12
 
 
